@@ -85,6 +85,9 @@ type Script struct {
 	// server that lets somebody else reuse the memory of a reply still being written shows up in the output.
 	PauseWriteAt   int
 	PauseWriteKeep int
+	// CloseFails makes the first Close report an error after releasing the connection, as tls.Conn.Close does
+	// when the close_notify alert cannot be sent to a peer that is already gone.
+	CloseFails bool
 	// EOFWithData makes the Read that hands out the very last scripted byte return (n, io.EOF) in one
 	// call, as io.Reader permits and some transports do (crypto/tls up to 1.2 with a close_notify already
 	// queued behind the data). Only with End == EOF.
@@ -106,6 +109,7 @@ type Conn struct {
 	stallKeep          int
 	pauseAt, pauseKeep int
 	paused, resumed    bool
+	closeFails         bool
 	eofWithData        bool
 	idleAt             int
 	idled              bool
@@ -132,7 +136,7 @@ type Conn struct {
 }
 
 func New(s Script) *Conn {
-	c := &Conn{end: s.End, failAt: s.FailWriteAt, failKeep: s.FailWriteKeep, stallAt: s.StallWriteAt, stallKeep: s.StallWriteKeep, idleAt: s.IdleAt, pauseAt: s.PauseWriteAt, pauseKeep: s.PauseWriteKeep, eofWithData: s.EOFWithData && s.End == EOF, readHash: 1469598103934665603}
+	c := &Conn{end: s.End, failAt: s.FailWriteAt, failKeep: s.FailWriteKeep, stallAt: s.StallWriteAt, stallKeep: s.StallWriteKeep, idleAt: s.IdleAt, closeFails: s.CloseFails, pauseAt: s.PauseWriteAt, pauseKeep: s.PauseWriteKeep, eofWithData: s.EOFWithData && s.End == EOF, readHash: 1469598103934665603}
 	for _, ch := range s.Chunks {
 		if len(ch) > 0 {
 			c.chunks = append(c.chunks, ch)
@@ -272,6 +276,9 @@ func (c *Conn) Close() error {
 	c.closed = true
 	c.closeSeq = NextSeq()
 	c.cond.Broadcast()
+	if c.closeFails {
+		return errors.New("sconn: failed to send the closing alert (but the connection was closed anyway): broken pipe")
+	}
 	return nil
 }
 
